@@ -329,6 +329,24 @@ def r_arg_checks(rule, root=None):
                     text = re.sub(r"(?<![\w.])%s(?![\w(])" % re.escape(n_), it, text)
         return text
 
+    def _short_pol(c_, f_):
+        t_ = A.canon_int_text(_resolve_lets(f_, str(A.ftxt(A.strip(c_)))))
+        if t_ in ("vars.len()<self.len()", "(vars.len()<self.len())"):
+            return 1
+        if t_ in ("self.len()<=vars.len()", "(self.len()<=vars.len())", "!(vars.len()<self.len())"):
+            return -1
+        return 0
+
+    def _count_by_statements(f_, err_prefix):
+        """the first test of the count, in statement order, answers the error in its "short" branch"""
+        for i_ in A.find(f_["body"], "If"):
+            pol = _short_pol(i_["cond"], f_)
+            if not pol:
+                continue
+            br = i_["then"] if pol > 0 else i_.get("else")
+            return br is not None and err_prefix in str(A.ftxt(br)) and "Ok(" not in str(A.ftxt(br))
+        return False
+
     def _err_exactly_when_short(f_, err_prefix, only_err=False):
         """every result of the check: the error exactly under vars.len() < self.len(), Ok(()) otherwise"""
         res = A.result_cases(f_["body"])
@@ -339,14 +357,14 @@ def r_arg_checks(rule, root=None):
             return e_ok
         return (e_ok and len(oks) == 1 and [A.canon_int_text(_resolve_lets(f_, str(x))) for x in oks[0][1]] == ["(self.len()<=vars.len())"] and len(res) == 2)
 
-    if (c == "(vars.len()<self.len())" and "Err(TracingArgError::BadVarSlice" in A.ftxt(ifs[0]["then"]) and "Ok(())" in A.unparse(ifs[0].get("else"))) or _err_exactly_when_short(fn, "Err(TracingArgError::BadVarSlice"):
+    if (c == "(vars.len()<self.len())" and "Err(TracingArgError::BadVarSlice" in A.ftxt(ifs[0]["then"]) and "Ok(())" in A.unparse(ifs[0].get("else"))) or _err_exactly_when_short(fn, "Err(TracingArgError::BadVarSlice") or _count_by_statements(fn, "Err(TracingArgError::BadVarSlice"):
         rule.ok("check_tracing_arguments: Err iff fewer slots than variables", file=VAR, line=fn["ln"])
     else:
         rule.bad("tracing-args", "check_tracing_arguments must return BadVarSlice exactly when vars.len() < self.len() (found `%s`)" % c, A.where(fn))
     fn = A.find_fn(VAR, "check_bulk_arguments", self_ty="VarMap", root=root)
     ifs = list(A.find(fn["body"], "If"))
     c = A.ftxt(A.strip(ifs[0]["cond"])) if ifs else ""
-    if (c == "(vars.len()<self.len())" and "Err(BulkArgError::BadVarSlice" in A.ftxt(ifs[0]["then"])) or _err_exactly_when_short(fn, "Err(BulkArgError::BadVarSlice", only_err=True):
+    if (c == "(vars.len()<self.len())" and "Err(BulkArgError::BadVarSlice" in A.ftxt(ifs[0]["then"])) or _err_exactly_when_short(fn, "Err(BulkArgError::BadVarSlice", only_err=True) or _count_by_statements(fn, "Err(BulkArgError::BadVarSlice"):
         rule.ok("check_bulk_arguments: Err iff fewer slices than variables", file=VAR, line=fn["ln"])
     else:
         rule.bad("bulk-args|count", "check_bulk_arguments must return BadVarSlice exactly when vars.len() < self.len()", A.where(fn))
@@ -387,7 +405,11 @@ def r_arg_checks(rule, root=None):
             rule.ok("check_%s_arguments: every Ok lies behind the count check" % lab_, file=VAR, line=f_["ln"])
     t = A.ftxt(fn["body"])
     # the reference length is the first slice's; every supplied slice is compared (evaluators read them all)
-    if "letSome(n)=vars.first().map(|v|v.len())else{returnOk(());}" in t and "vars.iter().enumerate().find(|(_i,v)|(v.len()!=n))" in t and "MismatchedSlices" in t:
+    every = ("vars.iter().enumerate().find(|(_i,v)|(v.len()!=n))" in t
+             or t.fmatch("for($I,$V)invars.iter().enumerate(){if($V.len()!=n){returnErr(MismatchedSlices") is not None
+             or t.fmatch("vars.iter().enumerate().find(|($I,$V)|($V.len()!=n))") is not None
+             or t.fmatch("vars.iter().position(|$V|($V.len()!=n))") is not None)
+    if "letSome(n)=vars.first().map(|v|v.len())else{returnOk(());}" in t and every and "MismatchedSlices" in t:
         rule.ok("check_bulk_arguments: every supplied slice is compared with the first one's length", file=VAR, line=fn["ln"])
     else:
         rule.bad("bulk-args|lengths", "check_bulk_arguments must compare the length of every supplied slice (`vars.iter()`, all of them: evaluators copy from all) with the first and report MismatchedSlices", A.where(fn))
